@@ -5,8 +5,8 @@ V = '/verif'
 props = [json.loads(l) for l in open(f'{V}/properties.jsonl')]
 claimed = {
  'C01': ('§5 C01', 'one Add/Replace/Remove/Clear/Clone step from every tree shape of the stated sizes with symbolic keys, plus API histories and bulk New, against a reference sorted set'),
- 'C02': ('§5 C02', 'inductive height invariant (peak-size bound) checked over one step from every shape of the stated sizes, exact integer bound arithmetic; API histories; bulk New minimal height'),
- 'C03': ('§5 C03', 'cursor navigation from every node of every tree shape of the stated sizes against the shape itself'),
+ 'C02': ('§5 C02', 'inductive height invariant (peak-size bound) checked over one step from every shape of the stated sizes, for concrete balance factors and with the depth-limit function abstracted to a table of solver variables (all balance factors at once), exact integer bound arithmetic; the limit-function lemma for every balance factor; API histories and long adversarial insertion runs; bulk New minimal height'),
+ 'C03': ('§5 C03', 'cursor navigation from every node of every tree shape of the stated sizes against the shape itself (constructed shapes, and shapes grown through the API in every insertion order and discovered through Root/Left/Right)'),
  'C04': ('§5 C04', 'omap step and history harnesses against a reference sorted map, iterators from First/Last/Seek with symbolic targets'),
  'C05': ('§5 C05', 'one operation from every valid heap of the stated sizes with symbolic priorities (both directions), then draining pops; Sort; heapify of arbitrary data'),
  'C06': ('§5 C06', 'update-callback positions checked against Peek after Set and after each of up to two further operations on symbolic priorities'),
@@ -14,15 +14,15 @@ claimed = {
  'C08': ('§5 C08', 'sequential LRU histories with symbolic keys/values/sizes against a reference LRU, eviction order and callback accounting'),
  'C09': ('§5 C09', 'bounded sequentialised exploration of interpreted threads with lock-granularity schedule points, happens-before race detection and linearizability against the C08 reference'),
  'C10': ('§5 C10', 'stack/list/queue/ring edit histories with symbolic values against reference sequences; stale-cursor panic obligations'),
- 'C11': ('§5 C11', 'all equality patterns of lhs/rhs of the stated lengths (symbolic elements): script execution, span identity, LCS-minimality, canonical form'),
+ 'C11': ('§5 C11', 'all equality patterns of lhs/rhs of the stated lengths (symbolic elements): script execution, span identity, LCS-minimality, canonical form; long inputs at size thresholds with two symbolic elements'),
  'C12': ('§5 C12', 'all order/equality patterns of inputs of the stated lengths (symbolic elements) under natural, reversed and non-unit comparators, against O(n^2) reference optima'),
- 'C13': ('§5 C13', 'all equality patterns of Left/Right of the stated lengths: chunk consumption/production after New, AddContext(n), Unify'),
- 'C14': ('§5 C14', 'format/parse round trips and reference appliers over the real formatter output for all diffs of the stated sizes'),
+ 'C13': ('§5 C13', 'all equality patterns of Left/Right of the stated lengths: chunk consumption/production after New, AddContext(n), Unify; multi-byte symbolic lines (the solver constructs digest collisions)'),
+ 'C14': ('§5 C14', 'format/parse round trips and reference appliers over the real formatter output for all diffs of the stated sizes; header names and timestamps through the interpreted time package'),
  'C15': ('§5 C15', 'all byte strings of the stated lengths (every byte symbolic): Split∘Quote, Split∘Join, and a reference POSIX word evaluator'),
  'C16': ('§5 C16', 'all byte strings of the stated lengths against an independent reference tokenizer; Scanner under arbitrary reader fragmentation; Rest'),
  'C17': ('§5 C17', 'every keep/drop pattern, every k and n in and around the valid range, symbolic contents, storage identity of results'),
  'C18': ('§5 C18', 'set operations over symbolic members (all equality patterns), nil/empty operands, every map iteration order'),
- 'C19': ('§5 C19', 'every random outcome as a solver variable: exact regime, Len bound, Count = Len*2^k, monotone k, Reset; coin obligations'),
+ 'C19': ('§5 C19', 'every random outcome as a solver variable: exact regime, Len bound, Count = Len*2^k, monotone k, Reset; coin obligations; large buffers with a few symbolic coins'),
  'C20': ('§5 C20', 'mbits on windows of the stated lengths/offsets with all bytes symbolic incl. unsafe-window check; Trunc over all byte strings/cuts; CompareNatural order axioms over all short strings'),
 }
 na_reason = {}
